@@ -167,6 +167,12 @@ PARSER = OBJECT('hotxlfp.parser:Parser', functions=SYMMAP, variables=SYMMAP, _e=
 V = VALUE_T
 
 
+def listener_failed():
+    # the (single) emit of this call did not return: a listener raised
+    es = callee_outcomes('tinyemitter:Emitter.emit')
+    return len(es) == 1 and not es[0].ret
+
+
 def one_emit(self, event):
     es = emits(self)
     return len(es) == 1 and es[0][0] == event
@@ -193,7 +199,7 @@ class Parser_call_function:
             return False
         if not out.ret:
             # only a listener (host code) may make the call itself fail; an error or exception raised by the function is a value (C08)
-            return len(emits(self)) == 1
+            return len(emits(self)) == 1 and listener_failed()
         if not one_emit(self, 'callFunction'):
             return False
         # the value: what the function returned - unless a listener's setter replaced it (never by None)
@@ -239,10 +245,12 @@ class Parser_call_variable:
 
     def post(self, name, out):
         if not out.ret:
-            # #NAME? exactly when the variable is unknown and no listener supplied a value; other failures come from listeners
-            if out.exc == 'XLError' and len(host_calls()) == 0:
-                return same(out.err, NAME) and not map_has(self.variables, name) and one_emit(self, 'callVariable')
-            return True
+            # a failure is either a listener's (the emit did not return) or #NAME? - exactly when the variable is unknown and no listener
+            # supplied a value; nothing else may fail, and the event has been raised in both cases
+            es = callee_outcomes('tinyemitter:Emitter.emit')
+            if len(es) == 1 and not es[0].ret:
+                return one_emit(self, 'callVariable')
+            return out.exc == 'XLError' and same(out.err, NAME) and not map_has(self.variables, name) and one_emit(self, 'callVariable')
         if not one_emit(self, 'callVariable'):
             return False
         # the value of the variable (also None, 0, '' ...) unless a listener's setter replaced it by something other than None
@@ -272,7 +280,7 @@ class Parser_call_cell_value:
                 same(cell.row.is_absolute, parts[0].is_absolute) and same(cell.col.is_absolute, parts[1].is_absolute)):
             return False
         if not out.ret:
-            return True           # a listener raised
+            return listener_failed()           # only a listener (host code) may make the reference fail
         # with no listener (no setter call) a cell is blank; otherwise the last value other than None handed to the setter
         return same(out.value, last_not_none(None, setter_values()))
 
@@ -321,7 +329,7 @@ def range_event_post(self, start_label, end_label, out):
     if not (same(a.label, to_label.spec(a.row, a.col)) and same(b.label, to_label.spec(b.row, b.col))):
         return False
     if not out.ret:
-        return True
+        return listener_failed()
     return same(out.value, last_not_none(None, setter_values()))
 
 
@@ -331,7 +339,17 @@ class Parser_call_range_value:
     args = dict(self=PARSER, start_label=STR, end_label=STR)
     no_native = True
     tiers = ('thorough',)
-    timeout_s = 900
+    timeout_s = 1500
+    # split by the order in which the corners were written (rows ascending or not x columns ascending or not) and by the absolute
+    # markers of the first corner: 16 parallel tasks that together cover every pair of labels
+    cases = [dict(_where='corner_order_is', _k=k) for k in range(0, 16)]
+
+    def corner_order_is(self, start_label, end_label, k):
+        s = extract_label.abstract(start_label.upper())
+        e = extract_label.abstract(end_label.upper())
+        rows = s[0].index <= e[0].index
+        cols = s[1].index <= e[1].index
+        return (k % 2 == 1) == rows and ((k // 2) % 2 == 1) == cols and ((k // 4) % 2 == 1) == s[0].is_absolute and ((k // 8) % 2 == 1) == s[1].is_absolute
 
     def pre(self, start_label, end_label):
         return is_cell_label(start_label) and is_cell_label(end_label)
